@@ -281,13 +281,33 @@ template <class T> struct Bfs {
   std::vector<Node> nodes;
   std::unordered_map<std::string, int> index;
   long long cur_node = -1; Op cur_op;
+  std::string last_shown;
+  mutable long long n_mf_unchanged = 0, n_mf_empty = 0; long long n_eval = 0;
 
+  // canonical key: two letters per small integer field
+  static void put(std::string& k, long long x) { if (x >= -32 && x < 224) { k += (char)('a' + ((x + 32) >> 4)); k += (char)('a' + ((x + 32) & 15)); } else { k += '{'; k += std::to_string(x); k += '}'; } }
   std::string key(const std::vector<Raw>& raws) const {
+    std::string k; k.reserve(64);
+    for (int i = 0; i < N; i++) {
+      const Raw& r = raws[i];
+      put(k, r.sz); k += (r.nonnull ? 'p' : 'n');
+      // aliasing pattern: index of the first object with the same non-null pointer
+      int al = i; for (int j = 0; j < i; j++) if (r.nonnull && raws[j].rep == r.rep) { al = j; break; }
+      put(k, al); k += ':';
+      for (int x : r.f) put(k, x);
+      k += ':';
+      for (double d : r.data) { if (d == (int)d) put(k, (int)d); else { k += '('; k += str(d); k += ')'; } }
+      for (int x : r.hk) { k += 'q'; put(k, x); }
+      k += '|';
+    }
+    return k;
+  }
+  // readable form of a state (sizes, null/non-null data pointer, alias index, private fields, contents, cached pointer kinds)
+  std::string show(const std::vector<Raw>& raws) const {
     std::string k;
     for (int i = 0; i < N; i++) {
       const Raw& r = raws[i];
       k += std::to_string(r.sz) + (r.nonnull ? "p" : "n");
-      // aliasing pattern: index of the first object with the same non-null pointer
       int al = i; for (int j = 0; j < i; j++) if (r.nonnull && raws[j].rep == r.rep) { al = j; break; }
       k += std::to_string(al) + ":";
       for (int x : r.f) k += std::to_string(x) + ",";
@@ -355,8 +375,8 @@ template <class T> struct Bfs {
       if (!R::value(*ob[i], raws[i], got, why)) { cls = "inconsistent-fields"; return "object " + std::to_string(i) + ": " + why; }
       if (val[i].moved) {   // moved-from: unchanged or empty
         Val before = val[i]; before.moved = false;
-        if (got == before) { val[i] = before; O(std::string(R::name()) + ":moved-from:unchanged"); }
-        else if (R::ncells(got) == 0 && got.a == 0) { val[i] = got; O(std::string(R::name()) + ":moved-from:empty"); }
+        if (got == before) { val[i] = before; n_mf_unchanged++; }
+        else if (R::ncells(got) == 0 && got.a == 0) { val[i] = got; n_mf_empty++; }
         else { cls = "moved-from-invalid"; return "object " + std::to_string(i) + " after being moved from is neither unchanged nor empty"; }
         continue;
       }
@@ -397,7 +417,7 @@ template <class T> struct Bfs {
         std::vector<Val> val = nodes[n].val;
         std::string exc, qdiff;
         try { qdiff = apply(obj, val, o); } catch (const Exc& e) { exc = e.what(); }
-        C("transitions"); C("evaluations");
+        CT(); n_eval++;
         model(val, o);
         std::vector<Raw> raws; std::string cls, diff;
         if (!exc.empty()) { cls = "unexpected-exception"; diff = exc; }
@@ -421,6 +441,9 @@ template <class T> struct Bfs {
     }
     C("states");   // the initial state
     g_bfs_hist = nullptr;
+    if (n_mf_unchanged) O(std::string(R::name()) + ":moved-from:unchanged", n_mf_unchanged);
+    if (n_mf_empty) O(std::string(R::name()) + ":moved-from:empty", n_mf_empty);
+    n_mf_unchanged = n_mf_empty = 0; C("evaluations", n_eval); n_eval = 0;
     bool fix = q.empty();
     O(std::string("bfs:") + R::name() + (inpl ? "+inplace" : "") + ":N=" + std::to_string(N) + (fix ? ":fixpoint" : ":deadline") + ":depth=" + std::to_string(maxdepth) + ":states=" + std::to_string(nodes.size()));
     if (!fix) ctx().complete = false;
@@ -430,10 +453,10 @@ template <class T> struct Bfs {
       std::string h = history((int)n);
       std::string k = replay(h, false);
       traces++;
-      if (k != key(nodes[n].raw)) { V("C15|copy|" + std::string(R::name()) + "|history-replay|state-differs", uname + "#0#" + h + " :: history", "replaying the history from default constructed objects gives state " + k + " but the search recorded " + key(nodes[n].raw)); }
+      if (k != key(nodes[n].raw)) { V("C15|copy|" + std::string(R::name()) + "|history-replay|state-differs", uname + "#0#" + h + " :: history", "replaying the history from default constructed objects gives a state different from the recorded " + show(nodes[n].raw)); }
     }
     C("bfs_histories_replayed", traces);
-    if (nodes.size() > 5 && (std::string(R::name()) == "Vec" || (std::string(R::name()) == "CovMat" && N == 2))) X(std::string(R::name()) + " history " + history((int)nodes.size() - 1) + " -> state " + key(nodes.back().raw));
+    if (nodes.size() > 5 && (std::string(R::name()) == "Vec" || (std::string(R::name()) == "CovMat" && N == 2))) X(std::string(R::name()) + " history " + history((int)nodes.size() - 1) + " -> state " + show(nodes.back().raw));
   }
   // replay a history with real operations from default constructed objects; returns the final key
   std::string replay(const std::string& hist, bool verbose) {
@@ -448,11 +471,11 @@ template <class T> struct Bfs {
       std::string exc, qdiff; try { qdiff = apply(ob, val, o); } catch (const Exc& e) { exc = e.what(); }
       model(val, o);
       std::string cls, diff; if (!exc.empty()) { cls = "unexpected-exception"; diff = exc; } else if (!qdiff.empty()) { cls = "wrong-answer"; diff = qdiff; } else diff = compare(ob, raws, val, cls);
-      if (verbose) printf("# %-8s -> %s %s\n", s.c_str(), key(raws).c_str(), diff.empty() ? "ok" : ("VIOLATION " + cls + ": " + diff).c_str());
+      if (verbose) printf("# %-8s -> %s %s\n", s.c_str(), show(raws).c_str(), diff.empty() ? "ok" : ("VIOLATION " + cls + ": " + diff).c_str());
       if (!diff.empty()) { if (verbose) report(cls, o, hist, diff); dead = (cls == "shared-buffer" || cls == "inconsistent-fields"); break; }
     }
     if (raws.empty()) { for (int i = 0; i < N; i++) raws.push_back(R::snap(*ob[i])); classify(raws); }
-    std::string k = key(raws);
+    std::string k = key(raws); last_shown = show(raws);
     if (!dead) for (auto p : ob) delete p;
     return k;
   }
